@@ -2,6 +2,7 @@
 import z3
 from .reg import contract, lemma, bv32, sx, zx, byte, INT32_MIN, LemmaOb, instantiate, U, S
 from vc.symex import LoopSpec, Contract, Ptr, BV
+from . import reg as _reg
 
 SC = 'ace_time::clock::SystemClock'
 INVALID = bv32(INT32_MIN)
@@ -176,6 +177,10 @@ def _assigns_all(c):
 
 contract('ace_time::clock::SystemClock::syncNow(int)', props=['C13'], ghost_init=ghost_init, logic='int',
          requires=_sync_pre, ensures=_sync_post, assigns=_assigns_all)
+# its backup-clock clause speaks about the calls made during its own call: inside setNow() / loop() it is executed in place
+_reg.REG['ace_time::clock::SystemClock::syncNow(int)'].inline_in_callers = True
+# the ghost store of the clock contracts is the environment (the millisecond counter, the last set point), not a per-call history
+_reg.REG['ace_time::clock::SystemClock::getNow() const'].call_site_reads = ('ghost',)
 
 
 def _setnow_post(c):
